@@ -108,3 +108,8 @@ fn test_tokens() {
     bucket.deplete::<RealTimeClock>(40);
     assert!(!bucket.check::<RealTimeClock>(10));
 }
+
+#[cfg(feature = "isomer_erbium_verif")]
+mod isomer_erbium_verif {
+    include!(concat!(env!("ISOMER_ERBIUM_VERIF_DIR"), "/dns_bucket.rs"));
+}
